@@ -17,6 +17,12 @@ pub struct C14Case {
     pub tree: TreeSpec,
     pub roots: usize,
     pub opts: GOpts,
+    /// rotation applied to the order in which the roots are given (r0 r0x r1 is also the sorted order)
+    #[serde(default)]
+    pub root_rot: u8,
+    /// the -o file exists already and is longer than the new report
+    #[serde(default)]
+    pub prefill_output: bool,
 }
 
 fn case_strategy() -> BoxedStrategy<C14Case> {
@@ -33,12 +39,12 @@ fn case_strategy() -> BoxedStrategy<C14Case> {
             p.near_dup_pairs = 0;
             p.classes = 2;
             let op = OptProfile { transform_w: 0.15, cache_w: 0.05, links: true, isolate: true, rf: true, max_roots: roots };
-            (tree_strategy(&p), gopts_strategy(op)).prop_map(move |(tree, mut opts)| {
+            (tree_strategy(&p), gopts_strategy(op), 0u8..3, any::<bool>()).prop_map(move |(tree, mut opts, root_rot, prefill_output)| {
                 opts.max_prefix = None;
                 opts.max_suffix = None;
                 opts.threads = vec![];
                 opts.fix_isolate(roots);
-                C14Case { tree, roots, opts }
+                C14Case { tree, roots, opts, root_rot, prefill_output }
             })
         })
         .boxed()
@@ -81,7 +87,12 @@ pub fn run_case(c: &C14Case, n: u64) -> Verdict {
     let cd = CaseDir::new("c14", n, Fs::Tmpfs);
     let tree = cd.tree();
     c.tree.build(&tree);
-    let roots = root_args(c.roots);
+    let mut roots = root_args(c.roots);
+    let rot = c.root_rot as usize % roots.len().max(1);
+    roots.rotate_left(rot);
+    if rot == 1 && roots.len() == 3 {
+        roots.swap(1, 2); // r0x r0 r1 -> not a rotation of the sorted order
+    }
     let mut sig: Vec<String> = vec![];
     if c.opts.isolate {
         sig.push("isolate".into());
@@ -145,7 +156,7 @@ pub fn run_case(c: &C14Case, n: u64) -> Verdict {
     }
     // (2) redundant / missing by the replication filter
     let canon_roots: Vec<PathBuf> = if c.opts.isolate {
-        root_paths(&tree, c.roots).iter().map(|p| std::fs::canonicalize(p).unwrap_or(p.clone())).collect()
+        roots.iter().map(|r| tree.join(r)).map(|p| std::fs::canonicalize(&p).unwrap_or(p.clone())).collect()
     } else {
         vec![]
     };
@@ -251,6 +262,13 @@ pub fn run_case(c: &C14Case, n: u64) -> Verdict {
     }
     // (8) -o file equals stdout
     let outfile = cd.out().join("report.txt");
+    if c.prefill_output {
+        // an older, longer report is already there: it must be replaced, not overwritten in place
+        let mut old = text.out.stdout.clone();
+        old.extend_from_slice(b"0123456789abcdef0123456789abcdef, 1 B (1 B) * 2:\n    /stale/path/one\n    /stale/path/two\n");
+        old.extend(std::iter::repeat(b'#').take(3000));
+        let _ = std::fs::write(&outfile, &old);
+    }
     let of = run_fmt("default", &[OsString::from("-o"), outfile.clone().into_os_string()]);
     let written = std::fs::read(&outfile).unwrap_or_default();
     // the command line differs (-o …), everything else must match
@@ -281,7 +299,7 @@ pub fn check(tier: Tier) -> i32 {
     cleanup_process_scratch();
     ctx.finish(
         "exploration",
-        "proptest-generated trees (hostile file names, hard-link sets, 1-3 roots) x configurations (--isolate, -H, -S, transform, --unique, --rf-under, --rf-over); each case runs group in text, JSON, CSV, fdupes and with -o; oracle: header totals == body, per-group count == listed paths, redundant/missing recomputed from the listed groups by the reference sub-grouping (isolate roots in order, else file id, else singletons; first max(rf,1) sub-groups retained), decreasing sizes, absolute paths, isolate roots contiguous in argument order, all formats decode (harness parsers) to the same groups in the same order, -o file == stdout. Non-trivial = >=2 groups of different length and a group containing a hard-link set or spanning >=2 isolate roots.",
+        "proptest-generated trees (hostile file names, hard-link sets, 1-3 roots) x configurations (--isolate, -H, -S, transform, --unique, --rf-under, --rf-over); each case runs group in text, JSON, CSV, fdupes and with -o; oracle: header totals == body, per-group count == listed paths, redundant/missing recomputed from the listed groups by the reference sub-grouping (isolate roots in order, else file id, else singletons; first max(rf,1) sub-groups retained), decreasing sizes, absolute paths, isolate roots contiguous in argument order, all formats decode (harness parsers) to the same groups in the same order, -o file == stdout (in half of the cases the -o file exists already and holds a longer, older report). Roots are given in sorted and in non-sorted order. Non-trivial = >=2 groups of different length and a group containing a hard-link set or spanning >=2 isolate roots.",
         &["harness parsers implement the documented writer format (4-space indent, STFU-8 escapes, RFC 4180 CSV)"],
     )
 }
